@@ -214,6 +214,7 @@ def streams(tier, rng, P, only=None, cases=None):
         st, f = impl
         if st != "ok": return ("violation", "script did not run normally: " + st)
         if "log=" not in m[0]: return ("mismatch", "reference interpreter failed: " + m[0])
+        if " big=1" in m[0]: return None      # the run left the 64-bit domain (a variable at or beyond 2^62): outside the tie's domain
         want_log = unhx(m[0].split("log=")[1].split(" ")[0]).decode("utf-8", "replace")
         want_log = "\n".join(want_log.split("\n")[:100])          # the log keeps at most 100 entries (C19)
         if len(want_log) > 4096: want_log = want_log[:4096] + "..."
@@ -257,6 +258,7 @@ def streams(tier, rng, P, only=None, cases=None):
         if not m or "log=" not in m[0]:
             return ("mismatch", "the literal model does not cover a generated program: " + (m[0] if m else "")[:80])
         d = dict(x.split("=", 1) for x in m[0].split(" ")[1:] if "=" in x)
+        if d.get("big") == "1": return None      # a variable at or beyond 2^62: outside the 64-bit domain of the tie
         want_log = unhx(d["log"]).decode("utf-8", "replace") if d["log"] != "~" else ""
         want_log = "\n".join(want_log.split("\n")[:100])
         got_log = norm_log(unhx(f["log"]).decode("utf-8", "replace")) if f["log"] != "~" else ""
